@@ -340,7 +340,7 @@ struct MemWorld : World
           break;
         case L_MALLOC:
           o.a[1] = (int64_t)r.below(T_COUNT);
-          o.a[2] = r.chance(2, 3) ? r.range(1, 8) : r.chance(1, 2) ? r.range(1, size / 2) : size;
+          o.a[2] = r.chance(2, 3) ? r.range(1, 8) : r.chance(1, 2) ? r.range(1, size / 2) : r.chance(1, 2) ? size : (int64_t)r.pick(std::vector<int64_t>{ 0xFFFFFFFFLL, 0x80000000LL, 0x40000001LL, 0x20000000LL, 0x10000002LL });
           o.a[3] = r.chance(1, 10) ? 1 : r.chance(1, 12) ? 2 : 0; // F3 / F4
           break;
         case C_ACCEPT:
@@ -728,6 +728,13 @@ struct MemWorld : World
         C->violate("C04", "null_not_preserved@malloc", "backend returned representation 0, application got a non-null pointer");
       else if (calls == 0)
         C->violate("C14", "allocation_not_served_inside_window@malloc", "sandbox #%d is created, yet the request never reached the backend allocator", s);
+      else if (p != nullptr && op.a[3] == 0 && !std::is_same_v<T, long> && !std::is_class_v<T> && !std::is_pointer_v<T>) {
+        // an array of `count` elements was handed out: all of it lies in the sandbox (types of equal size in both ABIs)
+        uintptr_t a = (uintptr_t)p.UNSAFE_unverified();
+        unsigned __int128 end = (unsigned __int128)(a - st.base()) + (unsigned __int128)count * sizeof(T);
+        if (end > st.size())
+          C->violate("C03", "allocation_extends_beyond_sandbox@malloc", "%u elements of %zu bytes at offset %llu in a region of %zu bytes", count, sizeof(T), (unsigned long long)(a - st.base()), st.size());
+      }
       push<T>(s, p, "malloc");
     }
   }
@@ -1497,6 +1504,14 @@ struct MemWorld : World
       [&](auto& t) {
         auto doit = [&](auto tagptr) {
           using U = std::remove_pointer_t<decltype(tagptr)>;
+          if (op.a[2] & 1) {
+            // through a const-qualified pointee and back
+            using T0 = std::remove_pointer_t<decltype(t.UNSAFE_unverified())>;
+            rlbox::tainted<const T0*, Sbx> ct = rlbox::sandbox_const_cast<const T0*>(t);
+            auto back = rlbox::sandbox_const_cast<T0*>(ct);
+            if ((uintptr_t)back.UNSAFE_unverified() != before)
+              C->violate("C03", "cast_changed_address@cast", "const cast round trip moved the pointer");
+          }
           TP<U> r = rlbox::sandbox_reinterpret_cast<U*>(t);
           if ((uintptr_t)r.UNSAFE_unverified() != before)
             C->violate("C03", "cast_changed_address@cast", "reinterpret cast moved the pointer");
@@ -1757,9 +1772,15 @@ struct MemWorld : World
         } else if (which == 2) {
           auto r = &vp[(unsigned)n];
           push<int>(s, rlbox::sandbox_const_cast<int*>(r), "volatile_ptr_op");
-        } else {
+        } else if (n & 1) {
           auto r = &(*vp);
           push<int>(s, rlbox::sandbox_const_cast<int*>(r), "volatile_ptr_op");
+        } else {
+          // casts applied directly to the pointer stored in sandbox memory
+          TP<char> r = rlbox::sandbox_reinterpret_cast<char*>(vp);
+          push<char>(s, r, "volatile_ptr_op");
+          rlbox::tainted<const int*, Sbx> r2 = rlbox::sandbox_const_cast<const int*>(vp);
+          push<int>(s, rlbox::sandbox_const_cast<int*>(r2), "volatile_ptr_op");
         }
       }
     });
